@@ -19,7 +19,17 @@ Lemmas/SrcBridgeLandscape*.lean, `src_<def>_eq_ref`, by `rfl`) and through it (b
 (`src_<def>_eq_model`, hand-written lemmas of the same files), for ALL inputs under the hypotheses printed in the obligation.
 
 Semantics of the subset (the translator's conventions):
-  * straight-line code is SSA-renamed (`x`, `x_1`, ...), every assignment is a `let`;
+  * straight-line code is SSA-renamed (`x`, `x_1`, ...), every assignment is a `let`; within one generated definition no binder
+    is handed out twice, and a binder the translator makes up (an SSA version `x_k`, a hoisted `t`, the variable `a_b` of a tuple
+    target) is never an identifier of the Python function (a local SPELLED `self_1` cannot be captured by the second version of
+    `self`), nor a Lean name the generated text uses;
+  * DEAD STORES are refused: every `let`, every bound value of a raising call must be read below its binding (what nothing reads
+    is what `rfl` absorbs); an expression statement that leaves no trace in the translation (evaluated and discarded) is refused;
+  * mutable values (lists / arrays, landscape objects) are translated as VALUES, WITHOUT ALIASING: `y = x`, `a, b = p` on an
+    existing pair, a display `[x, …]` / `for y in [x]` of a mutable `x` that is already stored (a name, an attribute, an
+    element) are outside the subset; the in-place `acc.append(e)` is accepted only on a name that OWNS its value (bound by an
+    assignment of this function to a value made there, not stored elsewhere since; the carried name of a loop inherits this);
+    `x += e` only on numbers (on an array it works in place); `X.compute_landscape()` works in place by the convention below;
   * a definition that can raise has type `Except Err τ`: `return e` is `.ok e`, `raise` is `.error` of the error value that the
     translator's table gives for the TEXT of the raise statement, a call of a raising definition is
     `match … with | .error e => .error e | .ok t => …` where the statement stands (arguments left to right); raising builtins are
@@ -44,12 +54,17 @@ Semantics of the subset (the translator's conventions):
     as its function parameters (dynamic dispatch); `for funct in pl` on a grid landscape is the legacy sequence protocol
     through `__getitem__`: `pl.compute_landscape()`, then the rows of `pl.values`;
   * `for x in L` is `L.foldl` / `L.foldlM` of its own definition `<f>_round` (parameters: the names the body only reads, then
-    the one name it re-assigns, then the loop variable); `zip(l, l[1:])` is `consecutive l`, `itertools.zip_longest(L, M)` is
+    the one name it re-assigns, then the loop variable; a loop variable that is bound before the loop is outside the subset, one
+    that is not is unbound behind the loop); `zip(l, l[1:])` is `consecutive l`, `itertools.zip_longest(L, M)` is
     `zipLongest L M` and the `if a is None / elif b is None / else` on its element the match on the three shapes;
     `acc.append(e)` is `acc ++ [e]`; a list comprehension is `List.map` (`List.mapM` of `<f>_elem` when its element can raise);
     a tuple target `for a, b in l` is one variable `a_b` with `a = a_b.1`, `b = a_b.2`;
-  * NumPy: `np.array(x)` / `np.array(x, dtype=…)` / `list(x)` on a list are the identity (recorded as written,
-    `src_<f>_conversions`); a 1-D array is `List α`, a 2-D array the list of its rows; `c * row` is `row.map (c * ·)`, `A + B`
+  * NumPy: `np.array(x)` / `np.array(x, dtype=…)` / `list(x)` on a list are the identity ON THE VALUE (each is pinned with the
+    function it stands in, the call as written -- argument included -- and the Lean type of its argument: `src_<key>_conversions`);
+    `zip` / `zip_longest` / `chain.from_iterable` give ITERATORS: they are list values only as the iterable of a loop /
+    comprehension or directly under `list(…)` (not under `np.array`, not assigned, not passed on); unary `+` is not translated
+    (TypeError on anything but a number); a 2-list `[a, b]` and a 2-tuple `(a, b)` are both a pair, which one is written is
+    pinned (`src_<key>_displays`); a 1-D array is `List α`, a 2-D array the list of its rows; `c * row` is `row.map (c * ·)`, `A + B`
     on 2-D arrays is the model's entrywise `matAdd`; `np.abs` is `PNorm.absA` entrywise; `np.max(A)` is `npMax` of the
     flattened array; `np.linspace` and one evaluation of `np.interp` are the function parameters `linspace`, `interp`
     (`np.interp(G, xp, fp)` is `interpEach interp G xp fp`); `np.sum(np.array(C) * np.array(P))` on a list of landscapes is
@@ -60,10 +75,14 @@ Semantics of the subset (the translator's conventions):
   * the body of the inner loop of `_p_norm` is the region that py2lean.py translates (`p_norm_segment` of
     Generated/SrcPNorm.lean, tied to `segTerm` there): it stands here as ONE statement `result += p_norm_segment …`.
 What is not translated is pinned as text: signatures, module- and class-level bindings of the names used (per Python file), the
-`raise` statements (their texts select the error values), conversions, the two `__init__` bodies, the property getters.
+`raise` statements (their texts select the error values), conversions, displays, the two `__init__` bodies, the property getters,
+EVERY binding of the class bodies of the classes whose instances are handled as objects (`src_<key>_class_bodies`: an added
+`__iter__` / `__len__` / `__array__` / `__bool__` / `__eq__` / `__radd__` / property changes what iteration, `np.array(…)`, an
+operator, an attribute read on an instance does).
 """
 import ast
 import os
+import re
 
 from .py2lean import (Shape, LEAN_RESERVED, lean_str, strip_doc, GEN, bindings_section, signature_text,
                       sanitize, not_translated, not_translated_comment)
@@ -121,9 +140,9 @@ def lty(t, top=True):
 
 
 class V:
-    """a translated expression: Lean text, type, atomic?"""
-    def __init__(self, t, ty, atom=False):
-        self.t, self.ty, self.atom = t, ty, atom
+    """a translated expression: Lean text, type, atomic?; `fl`: a numeric literal written as a float (`1.0`)"""
+    def __init__(self, t, ty, atom=False, fl=False):
+        self.t, self.ty, self.atom, self.fl = t, ty, atom, fl
 
 
 def is_simple(t):
@@ -280,10 +299,76 @@ def render(n, ind, raising):
     raise Shape("internal: IR node %r" % (n,))
 
 
+# ----------------------------------------------------------------------------- dead bindings
+
+_IDENT = re.compile(r"(?<![\w.'])[A-Za-z_][\w']*")
+
+
+def idents(text):
+    """identifiers a Lean text mentions (field names behind a `.` are not)"""
+    return set(_IDENT.findall(text))
+
+
+def node_idents(n):
+    """every identifier mentioned in an IR subtree (binders are unique per definition: a binder is mentioned below its binding
+    iff it is read)"""
+    if isinstance(n, (Ret, Tail)):
+        return idents(n.text)
+    if isinstance(n, Fail):
+        return idents(n.err)
+    if isinstance(n, Let):
+        return idents(n.text) | node_idents(n.body)
+    if isinstance(n, (BindExc, BindOpt)):
+        return idents(n.text) | node_idents(n.body)
+    if isinstance(n, Ite):
+        return idents(n.cond) | node_idents(n.a) | node_idents(n.b)
+    if isinstance(n, MatchThese):
+        return idents(n.scrut) | node_idents(n.right[1]) | node_idents(n.left[1]) | node_idents(n.both[1])
+    if isinstance(n, MatchOpt):
+        return idents(n.scrut) | node_idents(n.some) | node_idents(n.none)
+    if isinstance(n, Join):
+        return node_idents(n.inner) | node_idents(n.body)
+    raise Shape("internal: IR node %r" % (n,))
+
+
+def check_live(n, where, allow=()):
+    """DEAD STORES: a `let` / a bound result of the generated definition `where` that nothing below it reads is refused (`rfl`
+    would absorb it: zeta).  `allow`: the reviewed binder names of the target's `dead_ok`, printed in the header"""
+    def need(names, body, what):
+        live = node_idents(body)
+        for nm in names:
+            if nm != "_" and nm not in live and nm not in allow:
+                raise Shape("dead store: `%s` (%s) of `%s` is never read" % (nm, what, where))
+    if isinstance(n, Let):
+        need(idents(n.name), n.body, "let … := %s" % n.text[:60])
+        check_live(n.body, where, allow)
+    elif isinstance(n, (BindExc, BindOpt)):
+        need(idents(n.pat), n.body, "value of %s" % n.text[:60])
+        check_live(n.body, where, allow)
+    elif isinstance(n, Ite):
+        check_live(n.a, where, allow)
+        check_live(n.b, where, allow)
+    elif isinstance(n, MatchThese):
+        for _, b in (n.right, n.left, n.both):
+            check_live(b, where, allow)
+    elif isinstance(n, MatchOpt):
+        check_live(n.some, where, allow)
+        check_live(n.none, where, allow)
+    elif isinstance(n, Join):
+        need(idents(n.pat), n.body, "value of an `if … is None`")
+        check_live(n.inner, where, allow)
+        check_live(n.body, where, allow)
+
+
 # ----------------------------------------------------------------------------- the translator
 
 RESERVED = set(LEAN_RESERVED) | {"e", "it", "v", "q", "r", "some", "none", "id", "sweep", "ramp", "interp", "linspace", "pow", "expm1",
-                                 "log", "compute_landscape", "sup_norm", "approx", "values", "flatten", "Err"}
+                                 "log", "compute_landscape", "sup_norm", "approx", "values", "flatten", "Err",
+                                 # names of Lemmas/SrcLibLandscape.lean / the models that the generated text uses
+                                 "ExactObj", "GridObj", "LState", "These", "Scalar", "zipLongest", "consecutive", "pyGet", "interpEach",
+                                 "npMax", "npSumProducts", "matAdd", "pyMinBy", "pyMaxBy", "absA", "Option", "Int", "Unit", "Bool", "not",
+                                 "ok", "error", "left", "right", "both", "map", "mapM", "foldl", "foldlM", "length", "isEmpty"}
+# (the names of the generated definitions are added below, behind TARGETS)
 FP_TY = {"sweep": "List β → List (List (α × α))", "ramp": "List β → α → α → Nat → List (List α)", "interp": "List (α × α) → α → α",
          "linspace": "α → α → Nat → List α", "pow": "α → α → α", "expm1": "α → α", "log": "α → α",
          "compute_landscape": "σ → σ", "sup_norm": "σ → Except Err (σ × α)",
@@ -300,6 +385,20 @@ COMPUTE = {"EO": "ExactObj.compute_landscape sweep", "GO": "GridObj.compute_land
 COMPUTE_FP = {"EO": "sweep", "GO": "ramp", "SIGMA": "compute_landscape"}
 
 
+def is_mutable(ty):
+    """types whose Python values are mutable objects that the translation treats as VALUES: lists / arrays, object records"""
+    return (isinstance(ty, tuple) and ty[0] == "L") or ty in ("EO", "GO", "LS", "SIGMA", "RHO", "NU")
+
+
+def is_ref(n):
+    """an expression that evaluates to an EXISTING object: a name, an attribute, an element"""
+    return isinstance(n, (ast.Name, ast.Attribute)) or (isinstance(n, ast.Subscript) and not isinstance(n.slice, ast.Slice))
+
+
+ITER_FUNCS = ("zip", "itertools.zip_longest", "itertools.chain.from_iterable")
+SPELLED = {"np", "itertools", "numbers", "list", "zip", "len", "min", "max", "isinstance", "itemgetter", "attrgetter", "super"}
+
+
 def const_num(n):
     """the integer a numeric constant denotes (`1`, `1.0`, `-1`), else None"""
     if isinstance(n, ast.UnaryOp) and isinstance(n.op, ast.USub):
@@ -308,6 +407,13 @@ def const_num(n):
     if isinstance(n, ast.Constant) and not isinstance(n.value, bool) and isinstance(n.value, (int, float)) and n.value == int(n.value):
         return int(n.value)
     return None
+
+
+def float_lit(n):
+    """a numeric constant written as a float (`1.0`, `-2.0`): where Python needs an int (an index, a count) it raises"""
+    if isinstance(n, ast.UnaryOp) and isinstance(n.op, (ast.USub, ast.UAdd)):
+        return float_lit(n.operand)
+    return isinstance(n, ast.Constant) and isinstance(n.value, float)
 
 
 def is_none(n):
@@ -333,21 +439,45 @@ class Tr:
     def __init__(self, cfg, ctx, kind="function"):
         self.cfg, self.ctx, self.kind = cfg, ctx, kind           # ctx: shared per generated file (functions, emitted definitions, …)
         self.env, self.count, self.pre = {}, {}, []
+        self.used = set()                                        # Lean binders handed out in this definition
+        self.owned = set()                                       # Python names that own their (mutable) value: see `assign`
+        self.iter_node = None                                    # the iterable of the loop / comprehension being translated
         self.used_f = []                                         # function parameters this definition uses
         self.outer = None                                        # the enclosing translator of a loop body / comprehension element
         self.reads = []                                          # names of the enclosing definition this body reads
         self.read_names = {}                                     # python name -> (Lean binder name, type) of such a parameter
 
     # -- names
-    def fresh(self, py):
+    def fresh(self, py, synthetic=False):
+        """a Lean binder for the Python name `py` (`synthetic`: for a value the translator introduces itself).  NAME CAPTURE: within
+        one generated definition no binder is handed out twice, and a binder the translator makes up (an SSA version `x_k`, a
+        hoisted `t`, the variable `a_b` of a tuple target) is never an identifier of the Python function: a local spelled `self_1`
+        cannot be captured by the second version of `self`"""
+        own = py if py.isidentifier() else None
         base = py if py.isidentifier() else (sanitize(py) or "v")
         if base in RESERVED:
             base += "_"
+        pyid = self.ctx.get("pyidents", ())
         k = self.count.get(base, 0)
-        self.count[base] = k + 1
-        return base if k == 0 else "%s_%d" % (base, k)
+        while True:
+            cand = base if k == 0 else "%s_%d" % (base, k)
+            k += 1
+            if cand in self.used:
+                continue
+            if cand in pyid and (synthetic or cand != own):
+                continue
+            break
+        self.count[base] = k
+        self.used.add(cand)
+        return cand
+
+    def not_spelled(self, py):
+        # names that the translation resolves by SPELLING (module-level bindings, pinned as text) may not be bound locally
+        if py in SPELLED or py in self.cfg.get("ctors", ()) or py in self.ctx.get("funcs", ()):
+            raise Shape("the local name `%s` shadows a name that the translation resolves by its spelling" % py)
 
     def bind(self, py, ty):
+        self.not_spelled(py)
         nm = self.fresh(py)
         self.env[py] = (nm, ty)
         return nm
@@ -380,12 +510,12 @@ class Tr:
         return e
 
     def hoist_exc(self, text, ty, base="t"):
-        nm = self.fresh(base)
+        nm = self.fresh(base, synthetic=True)
         self.pre.append(("exc", nm, text, None))
         return V(nm, ty, True)
 
     def hoist_opt(self, text, err, ty, base="t"):
-        nm = self.fresh(base)
+        nm = self.fresh(base, synthetic=True)
         self.pre.append(("opt", nm, text, err))
         return V(nm, ty, True)
 
@@ -417,6 +547,8 @@ class Tr:
         if v.ty == ty:
             return v
         if v.ty == "NUM" and ty in ("A", "N", "Z"):
+            if v.fl and ty != "A":
+                raise Shape("the float literal `%s` where an integer is needed" % (ast.unparse(node) if node is not None else v.t))
             return V(v.t if not v.t.startswith("(-") or ty == "A" else v.t, ty, v.atom)
         if ty == "A" and v.ty in ("N", "SC"):
             return self.to_A(v, node)
@@ -443,7 +575,7 @@ class Tr:
             k = const_num(n)
             if k is None:
                 raise Shape("constant `%s` is outside the subset" % ast.unparse(n))
-            return V(str(k), "NUM", True)
+            return V(str(k), "NUM", True, fl=float_lit(n))
         if isinstance(n, ast.Name):
             nm, ty = self.lookup(n.id, n)
             return V(nm, ty, True)
@@ -461,9 +593,17 @@ class Tr:
             return self.listcomp(n, want)
         if isinstance(n, (ast.List, ast.Tuple)):
             if not n.elts:
+                if isinstance(n, ast.Tuple):
+                    raise Shape("the empty tuple `()` is outside the subset")
                 return V("[]", "EMPTY", True)
             if len(n.elts) == 2:                                  # a pair `[a, -b]` / `(a, other * b)`
                 a, b = self.expr(n.elts[0]), self.expr(n.elts[1])
+                for x, nd in ((a, n.elts[0]), (b, n.elts[1])):
+                    if is_mutable(x.ty) and is_ref(nd):
+                        raise Shape("aliasing: the display `%s` stores `%s`, a mutable value that is already stored elsewhere"
+                                    % (ast.unparse(n), ast.unparse(nd)))
+                # a 2-list and a 2-tuple are both read as a pair: which one is written is pinned (`src_<key>_displays`)
+                self.ctx["displays"].append("%s: %s" % (self.ctx.get("cur_func", "?"), ast.unparse(n)))
                 if a.ty in ("A", "NUM") and b.ty in ("A", "NUM"):
                     return V("(%s, %s)" % (a.t, b.t), P, True)
                 return V("(%s, %s)" % (a.t, b.t), X(a.ty, b.ty), True)
@@ -499,7 +639,9 @@ class Tr:
         if isinstance(n.op, ast.USub):
             k = const_num(n)
             if k is not None:
-                return V("(%d : α)" % k, "A", True) if k < 0 else V(str(k), "NUM", True)
+                if k < 0 and want in ("N", "Z") and float_lit(n):
+                    raise Shape("the float literal `%s` where an integer is needed" % ast.unparse(n))
+                return V("(%d : α)" % k, "A", True) if k < 0 else V(str(k), "NUM", True, fl=float_lit(n))
             v = self.expr(n.operand)
             if v.ty in ("A", "NUM", "SC", "N"):
                 v = self.to_A(v, n.operand)
@@ -507,8 +649,7 @@ class Tr:
             if v.ty in ("EO", "GO"):
                 return self.method_call(v, "__neg__", [], n)
             raise Shape("`%s`: negation of a value of type %s" % (ast.unparse(n), lty(v.ty)))
-        if isinstance(n.op, ast.UAdd):
-            return self.expr(n.operand, want)
+        # unary `+` is NOT read as the identity: on a landscape object, a list, an arbitrary operand it raises TypeError
         raise Shape("operator in `%s` is outside the subset" % ast.unparse(n))
 
     def binop(self, n, want):
@@ -535,7 +676,7 @@ class Tr:
         if b.ty == LA and a.ty in ("A", "NUM", "SC", "N") and sym == "*":
             c = self.to_A(a, n.left)
             return V("%s.map fun v => %s * v" % (arg(b.t), arg(c.t)), LA)
-        if a.ty in ("N", "NUM") and b.ty in ("N", "NUM") and not (isinstance(op, ast.Div)) and "A" != want \
+        if a.ty in ("N", "NUM") and b.ty in ("N", "NUM") and not (isinstance(op, ast.Div)) and "A" != want and not (a.fl or b.fl) \
                 and not (a.ty == "NUM" and b.ty == "NUM"):
             return V("%s %s %s" % (arg(a.t), sym, arg(b.t)), "N")
         floaty = isinstance(n.left, ast.Constant) and isinstance(n.left.value, float) or \
@@ -548,6 +689,8 @@ class Tr:
     def subscript(self, n):
         v = self.expr(n.value)
         k = const_num(n.slice)
+        if float_lit(n.slice):
+            raise Shape("`%s`: the index is written as a float" % ast.unparse(n))
         if isinstance(v.ty, tuple) and v.ty[0] == "X" and k in (0, 1):
             return V("%s.%d" % (arg(v.t), k + 1), v.ty[k + 1], True)
         if isinstance(v.ty, tuple) and v.ty[0] == "L":
@@ -595,7 +738,7 @@ class Tr:
         """`itemgetter(k)` / `attrgetter("a")` as a Lean function on the element type"""
         if isinstance(node, ast.Call) and isinstance(node.func, ast.Name) and len(node.args) == 1 and not node.keywords:
             if node.func.id == "itemgetter":
-                k = const_num(node.args[0])
+                k = None if float_lit(node.args[0]) else const_num(node.args[0])
                 if isinstance(elem_ty, tuple) and elem_ty[0] == "X" and k in (0, 1):
                     return "fun (it : %s) => it.%d" % (lty(elem_ty), k + 1), elem_ty[k + 1], lambda t: "%s.%d" % (t, k + 1)
             if node.func.id == "attrgetter" and isinstance(node.args[0], ast.Constant) and isinstance(node.args[0].value, str):
@@ -627,13 +770,19 @@ class Tr:
             if len(n.args) != 1 or any(k.arg != "dtype" for k in n.keywords):
                 raise Shape("`%s` is outside the subset" % ast.unparse(n))
             inner = n.args[0]
-            if isinstance(inner, ast.Call) and dotted(inner.func) in ("zip", "itertools.zip_longest", "itertools.chain.from_iterable"):
-                return self.iter_value(inner, wrapped=d)
-            v = self.expr(inner, want if (isinstance(want, tuple) and want[0] == "L") else None)
+            if isinstance(inner, ast.Call) and dotted(inner.func) in ITER_FUNCS:
+                if d != "list" or n.keywords:
+                    raise Shape("`%s`: an iterator is made a list by `list(…)` only (`np.array` of an iterator is a 0-d object array)"
+                                % ast.unparse(n))
+                v = self.iter_value(inner)
+            else:
+                v = self.expr(inner, want if (isinstance(want, tuple) and want[0] == "L") else None)
             if not (isinstance(v.ty, tuple) and v.ty[0] == "L") and v.ty != "EMPTY":
                 raise Shape("`%s`: the argument is not a list / array" % ast.unparse(n))
-            self.ctx["conversions"].append(ast.unparse(ast.Call(func=n.func, args=[ast.Name(id="…", ctx=ast.Load())], keywords=n.keywords)))
-            return v
+            # read as the identity on the VALUE: pinned with the function it stands in, its full text, the type of its argument
+            self.ctx["conversions"].append("%s: %s : %s" % (self.ctx.get("cur_func", "?"), ast.unparse(n),
+                                                            lty(v.ty) if v.ty != "EMPTY" else "[]"))
+            return V(v.t, v.ty, v.atom)
         if d == "np.linspace":
             a = self.eval_args(n, [("start", "A"), ("stop", "A"), ("num", "N")], "np.linspace")
             return V("%s %s" % (self.fp("linspace"), " ".join(a)), LA)
@@ -683,15 +832,19 @@ class Tr:
                 if v.ty == "SC":
                     return V("Scalar.isReal %s" % arg(v.t), "B")
             raise Shape("type test `%s` is outside the subset (only isinstance(x, numbers.Real) on a scalar operand)" % ast.unparse(n))
-        if d in ("zip", "itertools.zip_longest", "itertools.chain.from_iterable"):
-            return self.iter_value(n, wrapped=None)
+        if d in ITER_FUNCS:
+            # an iterator (consumed once, no `len`, no indexing) is a list value only where it is consumed at once
+            if self.iter_node is not n:
+                raise Shape("`%s`: an iterator that is not wrapped in `list(…)` is only translated as the iterable of a loop / "
+                            "comprehension" % ast.unparse(n))
+            return self.iter_value(n)
         if d in self.cfg["ctors"]:
             return self.ctor_call(d, n)
         if d in self.ctx["funcs"]:
             return self.func_call(d, n)
         raise Shape("call `%s` is outside the subset" % ast.unparse(n))
 
-    def iter_value(self, n, wrapped):
+    def iter_value(self, n):
         """`zip(a, b)`, `itertools.zip_longest(a, b)`, `itertools.chain.from_iterable(x)` as list values"""
         d = dotted(n.func)
         if n.keywords:
@@ -790,7 +943,7 @@ class Tr:
         v = self.hoist_exc(text, ret) if spec["raising"] else V(text, ret)
         if spec["threads"]:
             if not v.atom:                                       # bind the pair once
-                nm = self.fresh("t")
+                nm = self.fresh("t", synthetic=True)
                 self.pre.append(("let", nm, v.t, lty(ret)))
                 v = V(nm, ret, True)
             if recv_py is None:
@@ -837,7 +990,9 @@ class Tr:
         if len(n.generators) != 1 or n.generators[0].ifs or n.generators[0].is_async:
             raise Shape("comprehension `%s` is outside the subset" % ast.unparse(n)[:80])
         g = n.generators[0]
+        self.iter_node = g.iter
         src = self.expr(g.iter)
+        self.iter_node = None
         if not (isinstance(src.ty, tuple) and src.ty[0] == "L"):
             raise Shape("comprehension over `%s`, which is not a list" % ast.unparse(g.iter))
         ety = src.ty[1]
@@ -845,13 +1000,15 @@ class Tr:
         if names is None:
             raise Shape("comprehension target `%s`" % ast.unparse(g.target))
         sub = Tr(self.cfg, self.ctx, "elem")
-        sub.outer, sub.count = self, dict(self.count)
+        sub.outer, sub.count, sub.used = self, dict(self.count), set(self.used)
         if isinstance(g.target, ast.Name):
             var = "_" if names[0] == "_" else sub.bind(names[0], ety)
         else:
             if not (isinstance(ety, tuple) and ety[0] == "X" and len(names) == 2):
                 raise Shape("comprehension target `%s` on elements of type %s" % (ast.unparse(g.target), lty(ety)))
-            var = sub.fresh("_".join(names))
+            var = sub.fresh("_".join(names), synthetic=True)
+            for nm_ in names:
+                self.not_spelled(nm_)
             sub.env[names[0]], sub.env[names[1]] = ("%s.1" % var, ety[1]), ("%s.2" % var, ety[2])
         wanted = want[1] if isinstance(want, tuple) and want[0] == "L" else None
         elt = sub.expr(n.elt, wanted) if wanted in ("SC",) else sub.expr(n.elt)
@@ -875,6 +1032,7 @@ class Tr:
         reads = sorted(sub.reads, key=lambda py: list(self.env_all_ordered()).index(py))
         binders = " ".join("(%s : %s)" % (sub.read_names[py][0], lty(sub.read_names[py][1])) for py in reads)
         node = Tr.with_pre(pre, Ret(elt.t))
+        check_live(node, name, self.cfg.get("dead_ok", ()))
         fps = [q for q in self.cfg["fparams"] if q in sub.used_f]
         fb = " ".join("(%s : %s)" % (q, FP_TY[q]) for q in fps)
         self.ctx["defs"].append((name, "/-- the element `%s` of the comprehension of `%s` -/\ndef %s %s(%s : %s) :\n    Except Err %s :=\n%s"
@@ -979,8 +1137,13 @@ class StTr(Tr):
         t = s.targets[0]
         if isinstance(t, ast.Name):
             v = self.expr(s.value)
+            # ALIASING: mutable values are translated as VALUES; `y = x` makes one object reachable under two names
+            if is_mutable(v.ty) and is_ref(s.value):
+                raise Shape("aliasing: `%s` gives a second name to a mutable value (a list / array / landscape object); values are "
+                            "translated without aliasing" % ast.unparse(s))
             pre = self.take_pre()
             nm, ty, text = self.bind_value(t.id, v)
+            self.owned.add(t.id)                   # bound to a value that this statement made: in-place operations are allowed
             return Tr.with_pre(pre, Let(nm, ty, text, self.block(rest)))
         if isinstance(t, (ast.Tuple, ast.List)) and len(t.elts) == 2 and all(isinstance(e, ast.Name) for e in t.elts):
             a, b = t.elts[0].id, t.elts[1].id
@@ -998,11 +1161,14 @@ class StTr(Tr):
             v = self.expr(val)
             if not (isinstance(v.ty, tuple) and v.ty[0] == "X"):
                 raise Shape("`%s`: the value is not a pair" % ast.unparse(s))
+            if is_ref(val) and (is_mutable(v.ty[1]) or is_mutable(v.ty[2])):
+                raise Shape("aliasing: `%s` gives second names to mutable values" % ast.unparse(s))
+            self.owned -= {a, b}
             pre = self.take_pre()
             if v.atom:
                 tn, wrap = v.t, (lambda x: x)
             else:
-                tn = self.fresh("t")
+                tn = self.fresh("t", synthetic=True)
                 wrap = (lambda x, tn=tn, v=v: Let(tn, lty(v.ty), v.t, x))
             na = self.bind(a, v.ty[1])
             nb = self.bind(b, v.ty[2])
@@ -1013,6 +1179,8 @@ class StTr(Tr):
         if not isinstance(s.target, ast.Name):
             raise Shape("`%s` is outside the subset" % ast.unparse(s))
         v = self.expr(ast.BinOp(left=ast.Name(id=s.target.id, ctx=ast.Load()), op=s.op, right=s.value))
+        if v.ty not in ("A", "N", "Z", "NUM") or self.lookup(s.target.id)[1] not in ("A", "N", "Z"):
+            raise Shape("`%s`: an augmented assignment is only translated on numbers (on an array it works in place)" % ast.unparse(s))
         pre = self.take_pre()
         nm, ty, text = self.bind_value(s.target.id, v)
         return Tr.with_pre(pre, Let(nm, ty, text, self.block(rest)))
@@ -1034,7 +1202,14 @@ class StTr(Tr):
                 nm, ty = self.lookup(obj, c)
                 if not (isinstance(ty, tuple) and ty[0] == "L"):
                     raise Shape("`%s`: append to a value of type %s" % (ast.unparse(s), lty(ty)))
+                if obj not in self.owned:
+                    raise Shape("aliasing: `%s` works in place on `%s`, which does not own its value (it is not bound by an assignment "
+                                "of this function to a value made there, or it has been stored elsewhere since)" % (ast.unparse(s), obj))
                 v = self.expr(c.args[0], ty[1])
+                if isinstance(c.args[0], ast.Name):
+                    self.owned.discard(c.args[0].id)                 # stored in the list now: no longer its only owner
+                elif is_mutable(v.ty) and is_ref(c.args[0]):
+                    raise Shape("aliasing: `%s` stores a mutable value that is already stored elsewhere" % ast.unparse(s))
                 pre = self.take_pre()
                 nm, ty = self.lookup(obj, c)
                 new = self.bind(obj, ty)
@@ -1044,6 +1219,8 @@ class StTr(Tr):
             pre = self.take_pre()
             if pre and pre[-1][0] == "exc" and pre[-1][1] == v.t:
                 pre[-1] = ("exc", "_", pre[-1][2], None)
+            if not pre:
+                raise Shape("the statement `%s` leaves no trace in the translation (evaluated and discarded)" % ast.unparse(s))
             return Tr.with_pre(pre, self.block(rest))
         raise Shape("expression statement `%s` is outside the subset" % ast.unparse(s))
 
@@ -1155,7 +1332,9 @@ class StTr(Tr):
             pre_lets.append((new, lty("GO"), "%s %s" % (COMPUTE["GO"], nm)))
             src = V("%s.values" % new, LLA, True)
         else:
+            self.iter_node = it
             src = self.expr(it)
+            self.iter_node = None
         if self.pre:
             raise Shape("a raising expression as the iterable of a loop")
         if not (isinstance(src.ty, tuple) and src.ty[0] == "L"):
@@ -1187,12 +1366,23 @@ class StTr(Tr):
         rname = "%s_round%s" % (self.cfg["lean"], "" if k == 1 else "_%d" % k)
         sub = StTr(self.cfg, self.ctx, "round")
         sub.outer, sub.carried = self, carried
+        if carried in self.owned:
+            sub.owned.add(carried)
         names = target_names(s.target)
         if names is None:
             raise Shape("loop target `%s`" % ast.unparse(s.target))
+        # the loop variables live in the round definition only: in Python they keep their last value behind the loop, so a variable
+        # that is a name of the enclosing definition (read behind the loop it would be the OLD value here) is outside the subset;
+        # a variable that is not is unbound behind the loop (a read there is refused)
+        for n in names:
+            self.not_spelled(n)
+            if n != "_" and n in self.env_all():
+                raise Shape("the loop variable `%s` of `for %s in …` is a name that is bound before the loop" % (n, ast.unparse(s.target)))
+        if len(set(names)) != len(names) or carried in names:
+            raise Shape("loop target `%s`" % ast.unparse(s.target))
         sub.env[carried] = (sub.fresh(carried), cty)
         carried_binder = sub.env[carried][0]
-        var = sub.fresh("_".join(names))
+        var = sub.fresh("_".join(names), synthetic=len(names) > 1)
         body_stmts = list(s.body)
         lets = []
         if isinstance(s.target, ast.Name):
@@ -1220,6 +1410,7 @@ class StTr(Tr):
         for nm, ty, text in reversed(lets):
             node = Let(nm, ty, text, node)
         raising = can_fail(node)
+        check_live(node, rname, self.cfg.get("dead_ok", ()))
         reads = sorted([py for py in sub.reads if py != carried], key=lambda py: self.env_all_ordered().index(py))
         fps = [q for q in self.cfg["fparams"] if q in sub.used_f]
         binders = ["(%s : %s)" % (q, FP_TY[q]) for q in fps] + ["(%s : %s)" % (sub.read_names[py][0], lty(sub.read_names[py][1])) for py in reads] \
@@ -1252,10 +1443,10 @@ class StTr(Tr):
         if not ok:
             raise Shape("the body of the loop over zip_longest is not `if %s is None: … elif %s is None: … else: …`" % (a, b))
         i1, i2 = body[0], body[0].orelse[0]
-        saved, cnt = dict(self.env), dict(self.count)
+        saved, cnt, usd = dict(self.env), dict(self.count), set(self.used)
         out = []
         for stmts, bound in ((i1.body, [(b, ety[2])]), (i2.body, [(a, ety[1])]), (i2.orelse, [(a, ety[1]), (b, ety[2])])):
-            self.env, self.count = dict(saved), dict(cnt)
+            self.env, self.count, self.used = dict(saved), dict(cnt), set(usd)         # three arms of one `match`: separate scopes
             nms = [self.bind(py, ty) for py, ty in bound]
             out.append((nms, self.block(stmts)))
         self.env = saved
@@ -1300,6 +1491,23 @@ def find_function(tree, qual):
     return None, None
 
 
+def py_identifiers(fn):
+    """every identifier of the Python function: names, parameters, keyword names, attribute names"""
+    out = set()
+    for n in ast.walk(fn):
+        if isinstance(n, ast.Name):
+            out.add(n.id)
+        elif isinstance(n, ast.arg):
+            out.add(n.arg)
+        elif isinstance(n, (ast.FunctionDef, ast.ClassDef)):
+            out.add(n.name)
+        elif isinstance(n, (ast.Global, ast.Nonlocal)):
+            out.update(n.names)
+        elif isinstance(n, ast.Attribute) and isinstance(n.value, ast.Name):
+            out.add("%s_%s" % (n.value.id, n.attr))
+    return out
+
+
 def translate(fn, cfg, ctx):
     """-> list of (name, Lean definition text): the loop / element definitions first"""
     a = fn.args
@@ -1308,6 +1516,8 @@ def translate(fn, cfg, ctx):
     names = [x.arg for x in a.args]
     if names != list(cfg["params"]):
         raise Shape("parameters of %s are %s, the translator's table has %s" % (fn.name, names, list(cfg["params"])))
+    ctx["pyidents"] = py_identifiers(fn)
+    ctx["cur_func"] = cfg["func"]
     tr = StTr(cfg, ctx)
     ctx["loopno"] = [0]
     n0 = len(ctx["defs"])
@@ -1318,6 +1528,7 @@ def translate(fn, cfg, ctx):
     node = tr.block(strip_doc(fn.body))
     if tr.pre:
         raise Shape("internal: pending guards")
+    check_live(node, cfg["lean"], cfg.get("dead_ok", ()))
     raising = can_fail(node)
     if raising != cfg["raising"]:
         raise Shape("%s %s raise; the translator's table says it %s" % (cfg["func"], "can" if raising else "cannot",
@@ -1844,6 +2055,8 @@ TARGETS += [
            "`values`, flattened iff `self.flatten`")]),
 ]
 
+RESERVED |= {c["lean"] for c in TARGETS} | {"union_vals", "pos_to_slope_interp", "slope_to_pos_interp", "sum_slopes", "p_norm_segment"}
+
 # ----------------------------------------------------------------------------- text pins (reviewed)
 
 APPROX_INIT_TEXT = (
@@ -1880,13 +2093,32 @@ SKELETON_PINS = {
                "the constructor call with `start=`, `stop=`, `num_steps=`, `hom_deg=`, `values=` is read as `GridObj.new`")],
     "plnorm": [], "pltransform": [],
 }
+# `<function>: <the call as written> : <Lean type of its argument>`, in the order the translated functions of the file meet them
 CONVERSIONS = {
-    "plexact": [],
-    "plgrid": ["np.array(…)", "np.array(…)", "np.array(…)", "np.array(…)"],
-    "plnorm": ["list(…)", "np.array(…)"],
-    "plvec": ["np.array(…)"],
+    "plexact": ["union_crit_pairs: list(itertools.zip_longest(A.critical_pairs, B.critical_pairs)) : List (These (List (α × α)) (List (α × α)))"],
+    "plgrid": ["PersLandscapeApprox.__neg__: np.array([-1 * depth_array for depth_array in self.values]) : List (List α)",
+               "PersLandscapeApprox.__mul__: np.array([other * depth_array for depth_array in self.values]) : List (List α)",
+               "snap_pl: np.array(np.interp(grid, np.linspace(pl.start, pl.stop, pl.num_steps), funct)) : List α",
+               "snap_pl: np.array(snapped_landscape) : List (List α)"],
+    "plnorm": ["PersLandscapeExact.sup_norm: list(itertools.chain.from_iterable(self.critical_pairs)) : List (α × α)",
+               "PersLandscapeApprox.values_to_pairs: list(np.linspace(self.start, self.stop, self.num_steps)) : List α",
+               "PersLandscapeApprox.values_to_pairs: list(zip(grid_values, vals)) : List (α × α)",
+               "PersLandscapeApprox.values_to_pairs: np.array(result) : List (List (α × α))"],
+    "plvec": ["vectorize: np.array(result) : List (List α)"],
     "pltransform": [],
 }
+# `<function>: <display as written>`: the 2-lists / 2-tuples read as pairs
+DISPLAYS = {}          # filled below (py2lean_landscape_tables.py)
+# key -> [(python file, class)]: the classes whose instances the translated code handles as objects (attribute reads, method calls,
+# operators, iteration, `np.array(list of them)`): EVERY binding of their class bodies is pinned (`src_<key>_class_bodies`)
+OBJECT_CLASSES = {
+    "plexact": [(EX, "PersLandscapeExact"), (BASE, "PersLandscape")],
+    "plgrid": [(APXPY, "PersLandscapeApprox"), (BASE, "PersLandscape")],
+    "plnorm": [(EX, "PersLandscapeExact"), (APXPY, "PersLandscapeApprox"), (BASE, "PersLandscape")],
+    "plvec": [(EX, "PersLandscapeExact"), (APXPY, "PersLandscapeApprox"), (BASE, "PersLandscape")],
+    "pltransform": [(TRF, "PersistenceLandscaper")],
+}
+CLASS_BODIES = {}      # filled below (py2lean_landscape_tables.py)
 GETTERS = {"pltransform": [("start", "return self._start"), ("stop", "return self._stop")]}
 BINDINGS = {}          # filled below (reviewed against /repo)
 SIGNATURES = {}        # filled below
@@ -2005,8 +2237,10 @@ def header(key):
         "    locals or a rewrite the `let`s absorb -- breaks the obligation of the definition it lands in;\n"
         "  * `src_<def>_eq_model` (`src_<def>_eq`): the generated definition EQUALS the hand-written model (%s)\n"
         "    for all inputs under the hypotheses printed in the statement;\n"
-        "  * text pins: `src_…_signature`, `src_<key>_<file>_bindings`, `src_<key>_conversions`, `src_<f>_skeleton`, `src_<key>_getters`.\n\n"
+        "  * text pins: `src_…_signature`, `src_<key>_<file>_bindings`, `src_<key>_conversions`, `src_<key>_displays`,\n"
+        "    `src_<key>_class_bodies`, `src_<f>_skeleton`, `src_<key>_getters`.\n\n"
         "%s\n"
+        "Reviewed allow-list of dead stores (`dead_ok`, per translated function): %s.\n"
         "A source outside the subset gives `def srcShape_<f> : Bool := false`, and `srcShape_<f>_recognised` fails.\n"
         "-/\n"
         "set_option linter.unusedVariables false\n"
@@ -2014,7 +2248,9 @@ def header(key):
         "set_option linter.unusedSimpArgs false\n"
         "set_option linter.constructorNameAsVariable false\n\n"
         "namespace %s\nopen %s\n" % (imports, key, {"plexact": "C09", "plgrid": "C09", "plnorm": "C10", "plvec": "C08", "pltransform": "C08, C18"}[key],
-                                     WHAT[key], BRIDGES[key][-1].split("/")[-1], MODELS[key], conv, ns, opens))
+                                     WHAT[key], BRIDGES[key][-1].split("/")[-1], MODELS[key], conv,
+                                     ", ".join("%s: %s" % (c["lean"], list(c["dead_ok"])) for c in TARGETS if c["file"] == key and c.get("dead_ok"))
+                                     or "empty", ns, opens))
 
 
 def render_sig(func, text, expected):
@@ -2051,6 +2287,35 @@ def stem(path):
     return os.path.basename(path)[:-3]
 
 
+def pair_list(es):
+    return "[" + ",\n   ".join("(%s, %s)" % (lean_str(a), lean_str(b)) for a, b in es) + "]"
+
+
+def class_bodies(key, root, trees):
+    """[(name, text)]: for every class of OBJECT_CLASSES[key] its `class` line and every binding of its body, in source order"""
+    from .py2lean import scope_bindings
+    out = []
+    for p, cname in OBJECT_CLASSES.get(key, []):
+        tree = trees.get(p)
+        if tree is None:
+            try:
+                tree = ast.parse(open(os.path.join(root, p)).read())
+            except (OSError, SyntaxError) as e:
+                out.append(("class " + cname, "%s: %s" % (type(e).__name__, e)))
+                continue
+        cls = [n for n in tree.body if isinstance(n, ast.ClassDef) and n.name == cname]
+        if len(cls) != 1:
+            out.append(("class " + cname, "%d class statements of that name in %s" % (len(cls), p)))
+            continue
+        c = cls[0]
+        head = "".join("@%s " % ast.unparse(d) for d in c.decorator_list) + "class %s(%s)" % (
+            c.name, ", ".join([ast.unparse(b) for b in c.bases] + ["%s=%s" % (k.arg, ast.unparse(k.value)) for k in c.keywords]))
+        out.append(("class " + cname, head))
+        for n, t in scope_bindings(c.body):
+            out.append(("%s.%s" % (cname, n), t))
+    return out
+
+
 def render_file(key, root):
     from . import py2lean as _base
     py, out, ns, imports, prop, opens, variables = FILES[key]
@@ -2081,7 +2346,7 @@ def render_file(key, root):
         bk = "%s_%s" % (key, stem(p))
         o.append(bindings_section(bk, trees.get(p), fl, BINDINGS.get(bk), errs.get(p), info))
     # the callee tables of this file
-    ctx = {"defs": [], "loopno": [0], "conversions": [], "raises": [], "getters": set(),
+    ctx = {"defs": [], "loopno": [0], "conversions": [], "displays": [], "raises": [], "getters": set(),
            "funcs": dict(EXTERNAL_FUNCS.get(key, {})), "methods": dict(EXTERNAL_METHODS.get(key, {})),
            "fn_nodes": {c["func"]: found[c["func"]][0] for c in cfgs if found[c["func"]][0] is not None}}
     for c in cfgs:
@@ -2132,11 +2397,25 @@ def render_file(key, root):
     # text pins
     o.append("/-! ### text pins -/\n")
     names = []
-    o.append("/-- the array / list constructions that the translation reads as the identity, as written (argument elided), in the order "
-             "the translated functions of this file meet them -/")
-    o.append("def srcConversions_%s : List String :=\n  [%s]" % (key, ", ".join(lean_str(t) for t in ctx["conversions"])))
-    o.append("theorem src_%s_conversions : srcConversions_%s =\n  [%s] := rfl\n" % (key, key, ", ".join(lean_str(t) for t in CONVERSIONS.get(key, []))))
+    def strs(ts):
+        return "[" + ",\n   ".join(lean_str(t) for t in ts) + "]"
+    o.append("/-- the array / list constructions that the translation reads as the identity on the value: the function each stands in, "
+             "the call AS WRITTEN (argument included), the Lean type of its argument; in the order the translated functions of this "
+             "file meet them -/")
+    o.append("def srcConversions_%s : List String :=\n  %s" % (key, strs(ctx["conversions"])))
+    o.append("theorem src_%s_conversions : srcConversions_%s =\n  %s := rfl\n" % (key, key, strs(CONVERSIONS.get(key, []))))
     names.append("src_%s_conversions" % key)
+    o.append("/-- the 2-lists `[a, b]` and 2-tuples `(a, b)` that the translation reads as pairs, as written, with the function each "
+             "stands in (a list and a tuple are different Python values with the same translation) -/")
+    o.append("def srcDisplays_%s : List String :=\n  %s" % (key, strs(ctx["displays"])))
+    o.append("theorem src_%s_displays : srcDisplays_%s =\n  %s := rfl\n" % (key, key, strs(DISPLAYS.get(key, []))))
+    names.append("src_%s_displays" % key)
+    o.append("/-- every binding in the class bodies of the classes whose instances the translated code handles as objects (a "
+             "`__iter__`, `__len__`, `__array__`, `__bool__`, `__eq__`, `__radd__`, a property named like an attribute … added to one of "
+             "them changes what iteration, `np.array(…)`, an operator, an attribute read on an instance does) -/")
+    o.append("def srcClassBodies_%s : List (String × String) :=\n  %s" % (key, pair_list(class_bodies(key, root, trees))))
+    o.append("theorem src_%s_class_bodies : srcClassBodies_%s =\n  %s := rfl\n" % (key, key, pair_list(CLASS_BODIES.get(key, []))))
+    names.append("src_%s_class_bodies" % key)
     for p, q, lab, text, why in pins:
         fn = pinned[(p, q)][0]
         body = ast.unparse(ast.Module(body=strip_doc(fn.body), type_ignores=[])) if fn is not None else "(not found)"
@@ -2173,7 +2452,7 @@ def expected_tables(root):
     """Python source of BINDINGS / SIGNATURES as the tree at `root` has them -- for a maintainer who has REVIEWED a change
     (`python -m harness.translator.py2lean_landscape --expected [root]`); never called by the checks"""
     import re
-    b, sg = {}, {}
+    b, sg, dp, cb = {}, {}, {}, {}
 
     def un(t):
         return re.sub(r"\\x([0-9a-f]{2})", lambda m: chr(int(m.group(1), 16)), t).replace("\\n", "\n").replace('\\"', '"').replace("\\\\", "\\")
@@ -2186,7 +2465,11 @@ def expected_tables(root):
             m = re.search(r"def srcSignature_%s : String :=\n  \"((?:[^\"\\]|\\.)*)\"\n" % sanitize(f), text)
             if m:
                 sg[(key, f)] = un(m.group(1))
-    return b, sg
+        m = re.search(r"def srcDisplays_%s : List String :=\n  \[(.*?)\]\ntheorem" % key, text, re.S)
+        dp[key] = [un(t) for t in re.findall(r'"((?:[^"\\]|\\.)*)"', m.group(1))] if m else []
+        m = re.search(r"def srcClassBodies_%s : List \(String × String\) :=\n  \[(.*?)\]\ntheorem" % key, text, re.S)
+        cb[key] = [(un(n), un(t)) for n, t in re.findall(r'\("((?:[^"\\]|\\.)*)", "((?:[^"\\]|\\.)*)"\)', m.group(1))] if m else []
+    return b, sg, dp, cb
 
 
 def target_functions(path):
@@ -2201,6 +2484,9 @@ try:                                                     # the reviewed texts of
     from .py2lean_landscape_tables import BINDINGS as _B, SIGNATURES as _S
     BINDINGS.update(_B)
     SIGNATURES.update(_S)
+    from .py2lean_landscape_tables import DISPLAYS as _D, CLASS_BODIES as _C
+    DISPLAYS.update(_D)
+    CLASS_BODIES.update(_C)
 except ImportError:
     pass
 
@@ -2209,7 +2495,7 @@ if __name__ == "__main__":
     import sys
     if "--expected" in sys.argv:
         args = [a for a in sys.argv[1:] if a != "--expected"]
-        b, sg = expected_tables(args[0] if args else os.environ.get("PERSIM_ROOT", "/repo"))
+        b, sg, dp, cb = expected_tables(args[0] if args else os.environ.get("PERSIM_ROOT", "/repo"))
         print("# reviewed texts of the landscape engine (py2lean_landscape.py): module- and class-level bindings per Python file, signatures")
         print("BINDINGS = {")
         for k, es in b.items():
@@ -2220,4 +2506,16 @@ if __name__ == "__main__":
         print("}\nSIGNATURES = {")
         for k, t in sg.items():
             print("    %r: %r," % (k, t))
+        print("}\nDISPLAYS = {")
+        for k, ts in dp.items():
+            print("    %r: [" % k)
+            for t in ts:
+                print("        %r," % t)
+            print("    ],")
+        print("}\nCLASS_BODIES = {")
+        for k, es in cb.items():
+            print("    %r: [" % k)
+            for n, t in es:
+                print("        (%r, %r)," % (n, t))
+            print("    ],")
         print("}")
